@@ -14,6 +14,10 @@ CHECKS = {
    "stateless deviation-bounded DFS over schedules of the real shell on the simulated OS under a controlled executor (choice of next runnable process at every blocking point; nested-poll preemption at syscall taps), oracle = reference interpreter",
    "About 280 (quick) / 360 (thorough) race-free programs (pipelines of 2-4 stages with and without data, pipefail, async lists with wait/wait $!/saved pids/unknown pid, waits inside subshells and command substitutions, background job concurrent with a foreground pipeline) are each executed under every cooperative schedule (every choice of the next runnable simulated process at every blocking point; if the per-program cap is hit the run falls back to deviation bound 2 and says so) and additionally with preemption at every simulated system call up to deviation bound 1 (quick) / 2 (thorough). Every execution must terminate (no deadlock/livelock), show exactly the markers and $? values the reference interpreter predicts per process, exit with the predicted status, leave no zombie and no live process. Schedule bugs are interleaving bugs, so exhaustive schedule enumeration within a deviation bound is the fitting level.",
    "Schedules are those of the simulator (poll order of virtual processes; syscalls atomic); refsh and the probe built-ins are trusted; programs whose outcome legitimately depends on a race (EPIPE) are excluded by the generator."),
+ "C14": ("model_checking", "DESIGN.md §3 C14",
+   "stateless deviation-bounded DFS over schedules of writer/reader processes of the real shell on the simulated OS (controlled executor + syscall-tap preemption), byte-exact oracle at the consumer",
+   "Payload sizes around every buffer boundary of the simulator (0,1,511..513,1023..1025,1536,2047..2049,4096; PIPE_BUF 512, capacity 1024) x trailing/embedded newline shapes x 2-4 stage pipelines, command substitutions (plain, piped, nested, concatenated) and here-documents x reader buffer sizes; every case runs under all cooperative schedules when the payload is <= 1025 bytes (falling back to a completed deviation bound 2 if the cap is hit, reported) or under deviation bound 2/3 above, plus preemption at syscall taps with deviation bound 1. The consumer's length+hash must equal the payload, $( ) must strip exactly the trailing newlines, the shell must exit 0 with no deadlock, zombie or diagnostic.",
+   "Simulator pipe semantics; probe built-ins gen/cat/hsink/chk trusted."),
 }
 
 NOT_YET = {
